@@ -57,7 +57,7 @@ class Generator:
     # ------------------------------------------------------------------ configuration (swarm)
     def _draw_config(self):
         r = self.rng
-        weights = {2: 3, 3: 4, 4: 4, 5: 2, 6: 1} if self.tier == "quick" else {2: 2, 3: 3, 4: 3, 5: 3, 6: 2}
+        weights = {2: 3, 3: 4, 4: 4, 5: 2, 6: 2} if self.tier == "quick" else {2: 2, 3: 3, 4: 3, 5: 3, 6: 3}
         ns = sorted(set(r.choices(list(weights), weights=list(weights.values()), k=r.choice([1, 1, 2]))))
         conns = {}
         for n in ns:
@@ -259,6 +259,14 @@ class Generator:
             c = self._slots(ex, lambda m: m["tag"] == "MUBInfo")
             if c:
                 return self._call("lookup.mubinfo_copy", [self.ref(r.choice(c))])
+        if which < 0.92:
+            line = f"{r.randrange(2 ** (n * (n - 1) // 2))}:{r.randrange(9)}:{r.randrange(6)}:h0 cz0,1"
+            if r.random() < self.cfg["p_invalid"]:
+                line = "1:2:h0"
+            return self._call("lookup.StabilizerCircuitInfo", [self.lit(n), self.lit(line)])
+        if which < 0.95:
+            lines = ["7:3:2"] + [",".join("XZ"[(i + j) % 2] * n for j in range(n)) + ":h0 cz0,1" for i in range(2)] + [""]
+            return self._call("lookup.MUBInfo", [self.lit(n), self.lit(Lt.lst(lines))])
         toks = []
         for _ in range(r.randint(0, 6)):
             g = r.choice(["h", "s", "sdg", "cx", "cz", "swap"])
@@ -315,8 +323,21 @@ class Generator:
             if r.random() < 0.5:
                 args.append(self.lit(Lt.lst(r.sample(range(nb), r.randint(1, nb)))))
             return self._call("tomo.CircuitResult", args)
-        if which < 0.6:
+        if which < 0.59:
             return self._call("tomo.z_pauli_from_bitstring", [self.lit(n), self.lit(r.randrange(2 ** n))])
+        if which < 0.62:
+            sub = r.random()
+            crs = self._slots(ex, lambda m: m["tag"] == "CircuitResult")
+            brs = self._slots(ex, lambda m: m["tag"] == "BinaryResult")
+            if sub < 0.3 and crs:
+                return self._call("tomo.CircuitResult.str", [self.ref(r.choice(crs))])
+            if sub < 0.5 and brs:
+                return self._call("tomo.BinaryResult.eq", [self.ref(r.choice(brs)), self.ref(r.choice(brs))])
+            if sub < 0.65 and brs:
+                return self._call("tomo.BinaryResult.str", [self.ref(r.choice(brs))] + ([self.lit(4)] if r.random() < 0.5 else []))
+            if sub < 0.85:
+                return self._call("tomo.BinaryResult", [self.lit(r.randrange(16)), self.lit(r.randint(1, 50))])
+            return self._call("tomo.ReadoutInfo", [self.need_qc(ex, n, False), self.lit(n + 1), self.lit(Lt.tup(list(range(n))))])
         # -- measurement circuits
         subset = r.random() < 0.4
         N = n + r.randint(1, 2) if subset else n
@@ -354,7 +375,11 @@ class Generator:
         n = self._n()
         s = self.need_stab(ex, n, pre)
         op = r.choice(["stab.validate", "stab.expand", "stab.is_qubit_entangled", "stab.is_equivalent_mod_phase",
-                       "stab.to_list", "stab.eq", "stab.repr"])
+                       "stab.to_list", "stab.eq", "stab.repr"] * 3 + ["stab.is_equivalent", "stab.expectation_value"])
+        if op == "stab.is_equivalent":
+            return self._call(op, [s, self.need_stab(ex, n, pre)])
+        if op == "stab.expectation_value":
+            return self._call(op, [s, self.lit("Z" * n)])
         if op == "stab.is_qubit_entangled":
             return self._call(op, [s, self.lit(r.randrange(n))])
         if op in ("stab.is_equivalent_mod_phase", "stab.eq"):
@@ -403,17 +428,38 @@ class Generator:
         r = self.rng
         n = self._n()
         which = r.random()
-        if which < 0.4:
-            return self._call("lc.determine_lc_class", [self.need_stab(ex, n, pre)])
-        if which < 0.5:
-            return self._call("lc.count", [self.lit(n)])
         c = self._slots(ex, lambda m: m["tag"].startswith("LCClass"))
-        if c and which < 0.85:
+        if c and which < 0.45:
             sid = r.choice(c)
-            op = r.choice(["lc.id", "lc.get_graph", "lc.str", "lc.eq"])
+            op = r.choice(["lc.id", "lc.get_graph", "lc.str", "lc.eq", "lc.num_qubits", "lc.get_graph", "lc.id"])
             if op == "lc.eq":
                 return self._call(op, [self.ref(sid), self.ref(r.choice(c))])
             return self._call(op, [self.ref(sid)])
+        if which < 0.7:
+            s = self.need_stab(ex, n, pre)
+            if r.random() < 0.25:
+                return self._call("lc.determine_direct", [self.lit(n), s])
+            return self._call("lc.determine_lc_class", [s])
+        if which < 0.74:
+            return self._call("lc.count", [self.lit(n)])
+        if which < 0.78:
+            return self._call("lc.get_LC_type", [self.lit(n), self.lit(r.randrange(NCLASSES[n]))])
+        if which < 0.8:
+            return self._call("lc.LC_GI_size", [self.lit(n), self.lit(r.randrange(2))])
+        if which < 0.84:
+            return self._call("lc.bits", [self.lit(r.randrange(2 ** n)), self.lit(n)])
+        if which < 0.9:
+            k = r.randint(1, 6)
+            sig = [[r.randrange(2) for _ in range(n)] for _ in range(k)]
+            if r.random() < 0.5:
+                return self._call("lc.count_identity_structures", [self.lit(Lt.nd(sig, "int8"))])
+            return self._call("lc.count_identity_string", [self.lit(Lt.nd(sig, "int8")), self.lit(Lt.lst(sig[0]))])
+        if which < 0.93:
+            reprs = self._slots(ex, lambda m: m["tag"] == "Repr")
+            args = [self.lit(n), self.lit(r.randrange(3))]
+            if reprs and r.random() < 0.6:
+                args.append(self.ref(r.choice(reprs)))
+            return self._call("lc.new_typed", args)
         cid = r.randrange(NCLASSES[n])
         return self._call("lc.new", [self.lit(n), self.lit(cid)])
 
@@ -421,8 +467,12 @@ class Generator:
         r = self.rng
         n = min(self._n(), 5)
         which = r.random()
-        if which < 0.15:
+        if which < 0.1:
             return self._call("layer.gen_symplectic_from_id", [self.lit(Lt.lst([r.randrange(6) for _ in range(n)]))])
+        if which < 0.2:
+            c = list(r.choice(Lt.SQ_CLIFFORDS))
+            cl = self.lit(Lt.lst(c)) if r.random() < 0.5 else self.lit(Lt.nd(c))
+            return self._call("layer.gen_single_qubit_symplectic", [cl, self.lit(n), self.lit(r.randrange(n))])
         if which < 0.3:
             c = Lt.lst([Lt.lst(list(r.choice(Lt.SQ_CLIFFORDS))) for _ in range(n)])
             return self._call("layer.gen_symplectic", [self.lit(c)])
@@ -450,7 +500,9 @@ class Generator:
                 strs = strs[:-1]
             return self._call("rot.synth_circuit_from_stabilizers", [self.lit(Lt.lst(strs))])
         if which < 0.4:
-            return self._call("rot.do_prepare_same_state", [self.need_qc(ex, n, False), self.need_qc(ex, n, False)])
+            a = self.need_qc(ex, n, False)
+            b = a if r.random() < 0.3 else self.need_qc(ex, n, False)
+            return self._call(r.choice(["rot.do_prepare_same_state", "rot.do_prepare_same_state", "rot.assert_same_state"]), [a, b])
         circ = self.need_qc(ex, n, False)
         if "lit" in circ:
             mk = {"id": self._id(), "kind": "lit", "value": circ["lit"]}
@@ -466,8 +518,11 @@ class Generator:
 
     def _fam_f2(self, ex, pre):
         r = self.rng
-        op = r.choice(["f2.rref", "f2.rank", "f2.null_space", "f2.rref_and_basis_change", "f2.mat_mul", "f2.add"])
+        op = r.choice(["f2.rref", "f2.rank", "f2.null_space", "f2.rref_and_basis_change", "f2.mat_mul", "f2.add", "f2.trf"])
         rows, cols = r.randint(1, 8), r.randint(1, 8)
+        if op == "f2.trf":
+            m = r.randint(2, 6)
+            return self._call(op, [self.lit(r.randrange(m)), self.lit(r.randrange(m)), self.lit(m)])
         if op == "f2.mat_mul":
             k = r.randint(1, 6)
             return self._call(op, [self.need_mat(rows, k, "int8"), self.need_mat(k, cols, "int8")])
@@ -492,9 +547,33 @@ class Generator:
         n = r.randint(3, 6)
         i = r.randrange(n - 1)
         j = r.randrange(i + 1, n)
-        if r.random() < 0.5:
+        sub = r.random()
+        if sub < 0.2:
             return self._call("lin.choose2_from", [self.lit(n), self.lit(i), self.lit(j)])
-        return self._call("lin.choose2_to", [self.lit(n), self.lit(r.randrange(n * (n - 1) // 2))])
+        if sub < 0.4:
+            return self._call("lin.choose2_to", [self.lit(n), self.lit(r.randrange(n * (n - 1) // 2))])
+        if sub < 0.5:
+            return self._call("lin.1n", [self.lit(n), self.lit(r.randrange(n))])
+        nts = self._slots(ex, lambda m: m["tag"] == "NTuple")
+        reprs = self._slots(ex, lambda m: m["tag"] == "Repr")
+        if sub < 0.62 or not nts:
+            data = Lt.lst(r.sample(range(6), r.randint(1, 4))) if r.random() < 0.85 else r.randrange(6)
+            mk = {"id": self._id(), "kind": "lit", "value": data}
+            pre.append(mk)
+            return self._call("lin.NTuple", [self.ref(mk["id"])])
+        if sub < 0.7:
+            return self._call("lin.NTuple.query", [self.ref(r.choice(nts)), self.ref(r.choice(nts))])
+        if sub < 0.8 or not reprs:
+            perm = r.sample(range(6), 6)
+            cut = sorted(r.sample(range(1, 6), r.randint(1, 3)))
+            parts = [perm[a:b] for a, b in zip([0] + cut, cut + [6])]
+            mk = {"id": self._id(), "kind": "lit", "value": Lt.lst([Lt.lst(x) for x in parts])}
+            pre.append(mk)
+            return self._call("lin.Repr", [self.ref(mk["id"])])
+        if sub < 0.9:
+            return self._call("lin.Repr.query", [self.ref(r.choice(reprs)), self.ref(r.choice(reprs)),
+                                                 self.lit(r.randint(1, 3)), self.lit(r.randrange(2))])
+        return self._call("lin.Repr.add", [self.ref(r.choice(reprs)), self.ref(r.choice(nts))])
 
     # ------------------------------------------------------------------ adversarial events
     def gen_mutation(self, ex):
